@@ -731,6 +731,10 @@ def lastPaused (g : Nat) : List IEv → Bool
   | .tPause g' :: l => if g' = g then true else lastPaused g l
   | .tResume g' :: l => if g' = g then false else lastPaused g l
   | .exc _ :: l => lastPaused g l
+  | .req _ :: l => lastPaused g l
+  | .unreq _ :: l => lastPaused g l
+  | .opened _ :: l => lastPaused g l
+  | .closed _ :: l => lastPaused g l
 
 /-- no transport is told the same thing twice in a row (a new transport counts as resumed) -/
 def altOK : List IEv → Bool
@@ -738,6 +742,78 @@ def altOK : List IEv → Bool
   | .tPause g :: l => !lastPaused g l && altOK l
   | .tResume g :: l => lastPaused g l && altOK l
   | .exc _ :: l => altOK l
+  | .req _ :: l => altOK l
+  | .unreq _ :: l => altOK l
+  | .opened _ :: l => altOK l
+  | .closed _ :: l => altOK l
+
+/-- what the applications want, read off the history of what they did and were told — independent of
+    `Inbound`'s own set -/
+structure Ghost where
+  w : List Nat := []     -- subchannels whose application has an outstanding pause request
+  cl : List Nat := []    -- subchannels that were closed (and not opened again)
+
+def gev (g : Ghost) : IEv → Ghost
+  | .req sc => { g with w := sAdd sc g.w }
+  | .unreq sc => { g with w := sDel sc g.w }
+  | .closed sc => { w := sDel sc g.w, cl := sAdd sc g.cl }    -- a closed subchannel's request dies with it
+  | .opened sc => { g with cl := sDel sc g.cl }
+  | _ => g
+
+def G : List IEv → Ghost
+  | [] => {}
+  | e :: l => gev (G l) e
+
+/-- environment: the application of a closed subchannel does not ask for a pause any more -/
+def envOKb : List IEv → Bool
+  | [] => true
+  | .req sc :: l => !(G l).cl.contains sc && envOKb l
+  | .tPause _ :: l => envOKb l
+  | .tResume _ :: l => envOKb l
+  | .exc _ :: l => envOKb l
+  | .unreq _ :: l => envOKb l
+  | .opened _ :: l => envOKb l
+  | .closed _ :: l => envOKb l
+
+def EnvOK (l : List IEv) : Prop := envOKb l = true
+
+instance (l : List IEv) : Decidable (EnvOK l) := by unfold EnvOK; infer_instance
+
+theorem want_not_closed : ∀ (l : List IEv), EnvOK l → ∀ sc, sc ∈ (G l).w → sc ∉ (G l).cl := by
+  intro l
+  induction l with
+  | nil => intro _ sc hsc; cases hsc
+  | cons e l ih =>
+    intro henv sc hsc
+    unfold EnvOK at henv ih
+    cases e with
+    | req x =>
+      simp only [envOKb, Bool.and_eq_true, Bool.not_eq_true', List.contains_eq_mem, decide_eq_false_iff_not] at henv
+      simp only [G, gev, mem_sAdd] at hsc ⊢
+      rcases hsc with rfl | hsc
+      · exact henv.1
+      · exact ih henv.2 sc hsc
+    | unreq x =>
+      simp only [envOKb] at henv
+      simp only [G, gev, mem_sDel] at hsc ⊢
+      exact ih henv sc hsc.1
+    | closed x =>
+      simp only [envOKb] at henv
+      simp only [G, gev, mem_sDel, mem_sAdd] at hsc ⊢
+      rintro (h1 | h1)
+      · exact hsc.2 h1
+      · exact ih henv sc hsc.1 h1
+    | opened x =>
+      simp only [envOKb] at henv
+      simp only [G, gev, mem_sDel] at hsc ⊢
+      exact fun hc => ih henv sc hsc hc.1
+    | tPause x => simp only [envOKb] at henv; exact ih henv sc hsc
+    | tResume x => simp only [envOKb] at henv; exact ih henv sc hsc
+    | exc x => simp only [envOKb] at henv; exact ih henv sc hsc
+
+/-- the calls on TCP transports in a log -/
+def sigs (l : List IEv) : List IEv :=
+  l.filter (fun e => match e with | .tPause _ => true | .tResume _ => true | _ => false)
 
 inductive IReach : Inb → Prop
   | init : IReach {}
@@ -748,6 +824,7 @@ structure IInv (s : Inb) : Prop where
   alt : altOK s.log = true
   fresh : ∀ g, s.gen < g → lastPaused g s.log = false
   connLe : ∀ g, s.conn = some g → g ≤ s.gen
+  want : ∀ x, x ∈ (G s.log).w ↔ x ∈ s.pausedSc
 
 theorem sDel_nil_of_nil {x : Nat} {l : List Nat} (h : l = []) : sDel x l = [] := by simp [h, sDel]
 theorem sAdd_ne_nil (x : Nat) (l : List Nat) : sAdd x l ≠ [] := by
@@ -755,59 +832,136 @@ theorem sAdd_ne_nil (x : Nat) (l : List Nat) : sAdd x l ≠ [] := by
   · rename_i h; intro hn; rw [hn] at h; cases h
   · simp
 
-theorem iinv_discard (s : Inb) (sc : Nat) (hp : dcpForwardsResume = true) (h : IInv s) : IInv (s.discard sc) := by
+/-- `IInv` only looks at four components -/
+theorem IInv.congr {s s' : Inb} (h : IInv s) (h1 : s'.pausedSc = s.pausedSc) (h2 : s'.conn = s.conn)
+    (h3 : s'.gen = s.gen) (h4 : s'.log = s.log) : IInv s' := by
+  refine ⟨?_, ?_, ?_, ?_, ?_⟩
+  · intro g hg; rw [h4, h1]; exact h.exact g (by rw [← h2]; exact hg)
+  · rw [h4]; exact h.alt
+  · intro g hg; rw [h4]; exact h.fresh g (by rw [← h3]; exact hg)
+  · intro g hg; rw [h3]; exact h.connLe g (by rw [← h2]; exact hg)
+  · intro x; rw [h4, h1]; exact h.want x
+
+/-- an entry that is neither a transport call nor a request/close: an exception, or `opened` -/
+theorem IInv.push {s s' : Inb} (h : IInv s) (e : IEv) (he : (∃ x, e = .exc x) ∨ (∃ x, e = .opened x))
+    (h1 : s'.pausedSc = s.pausedSc) (h2 : s'.conn = s.conn) (h3 : s'.gen = s.gen) (h4 : s'.log = e :: s.log) : IInv s' := by
+  have hl : ∀ g, lastPaused g (e :: s.log) = lastPaused g s.log := by
+    intro g; rcases he with ⟨x, rfl⟩ | ⟨x, rfl⟩ <;> rfl
+  have ha : altOK (e :: s.log) = altOK s.log := by rcases he with ⟨x, rfl⟩ | ⟨x, rfl⟩ <;> rfl
+  have hw : (G (e :: s.log)).w = (G s.log).w := by rcases he with ⟨x, rfl⟩ | ⟨x, rfl⟩ <;> rfl
+  refine ⟨?_, ?_, ?_, ?_, ?_⟩
+  · intro g hg; rw [h4, hl, h1]; exact h.exact g (by rw [← h2]; exact hg)
+  · rw [h4, ha]; exact h.alt
+  · intro g hg; rw [h4, hl]; exact h.fresh g (by rw [← h3]; exact hg)
+  · intro g hg; rw [h3]; exact h.connLe g (by rw [← h2]; exact hg)
+  · intro x; rw [h4, hw, h1]; exact h.want x
+
+theorem IInv.raise {s : Inb} (h : IInv s) (e : IExn) : IInv (s.raise e) :=
+  h.push (.exc e) (Or.inl ⟨e, rfl⟩) rfl rfl rfl rfl
+
+/-- `subchannel_resumeProducing` / `stopProducing` / the tail of `subchannel_closed`, after the application's
+    resume (or the close) has been noted: `s0` is `s` with that note `e` -/
+theorem iinv_discard (s s0 : Inb) (sc : Nat) (e : IEv) (he : e = .unreq sc ∨ e = .closed sc)
+    (h1 : s0.pausedSc = s.pausedSc) (h2 : s0.conn = s.conn) (h3 : s0.gen = s.gen) (h4 : s0.log = e :: s.log)
+    (hp : dcpForwardsResume = true) (h : IInv s) : IInv (s0.discard sc) := by
+  have hl : ∀ g, lastPaused g (e :: s.log) = lastPaused g s.log := by
+    intro g; rcases he with rfl | rfl <;> rfl
+  have ha : altOK (e :: s.log) = altOK s.log := by rcases he with rfl | rfl <;> rfl
+  have hw : ∀ x, x ∈ (G (e :: s.log)).w ↔ x ∈ sDel sc s.pausedSc := by
+    intro x; rcases he with rfl | rfl <;> simp only [G, gev, mem_sDel, h.want x]
   unfold Inb.discard
+  split
+  · rename_i g hg
+    have hg' : s.conn = some g := by rw [← h2]; exact hg
+    split
+    · rename_i hc
+      simp only [Bool.and_eq_true, Bool.not_eq_true', List.isEmpty_iff, h1] at hc
+      have hne : s.pausedSc ≠ [] := by intro h0; simp [h0] at hc
+      have hlp := (h.exact g hg').2 hne
+      unfold Inb.connResume; simp only [hp, if_true, h4, h1]
+      refine ⟨?_, ?_, ?_, ?_, ?_⟩
+      · intro g' hg''; simp only at hg''; rw [hg] at hg''; cases hg''
+        simp [lastPaused, hc.2]
+      · simp [altOK, hl, ha, hlp, h.alt]
+      · intro g' hg''; simp only [h3] at hg''
+        have := h.connLe g hg'
+        simp only [lastPaused]; split
+        · omega
+        · rw [hl]; exact h.fresh g' hg''
+      · intro g'' hg''; simp only [h3] at hg'' ⊢; rw [hg] at hg''; cases hg''; exact h.connLe _ hg'
+      · intro x; simp only [G, gev]; exact hw x
+    · rename_i hc
+      simp only [h4, h1]
+      refine ⟨?_, ?_, ?_, ?_, ?_⟩
+      · intro g' hg''; simp only at hg'' ⊢
+        rw [hl, h.exact g' (by rw [← h2]; exact hg'')]
+        simp only [Bool.and_eq_true, Bool.not_eq_true', List.isEmpty_iff, not_and, h1] at hc
+        constructor
+        · intro hne h0; exact hc (by simpa using hne) h0
+        · intro hne h0; exact hne (sDel_nil_of_nil h0)
+      · simp only; rw [ha]; exact h.alt
+      · intro g' hg''; simp only [h3] at hg'' ⊢; rw [hl]; exact h.fresh g' hg''
+      · intro g' hg''; simp only [h3] at hg'' ⊢; exact h.connLe g' (by rw [← h2]; exact hg'')
+      · exact hw
+  · rename_i hg
+    simp only [h4, h1]
+    refine ⟨?_, ?_, ?_, ?_, hw⟩
+    · intro g hg'; simp only at hg'; rw [hg] at hg'; cases hg'
+    · simp only; rw [ha]; exact h.alt
+    · intro g' hg''; simp only [h3] at hg'' ⊢; rw [hl]; exact h.fresh g' hg''
+    · intro g hg'; simp only at hg'; rw [hg] at hg'; cases hg'
+
+theorem iinv_appResume (hr : dcpForwardsResume = true) {s : Inb} (h : IInv s) (sc : Nat) : IInv (s.appResume sc) :=
+  iinv_discard s _ sc (.unreq sc) (Or.inl rfl) rfl rfl rfl rfl hr h
+
+theorem iinv_closeSub (hr : dcpForwardsResume = true) {s : Inb} (h : IInv s) (sc : Nat) : IInv (s.closeSub sc) := by
+  unfold Inb.closeSub
+  split
+  · exact iinv_discard s _ sc (.closed sc) (Or.inr rfl) rfl rfl rfl rfl hr h
+  · exact h.raise _
+
+theorem iinv_appPause (hp : dcpForwardsPause = true) {s : Inb} (h : IInv s) (sc : Nat) : IInv (s.appPause sc) := by
+  have hw : ∀ x, x ∈ (G (.req sc :: s.log)).w ↔ x ∈ sAdd sc s.pausedSc := by
+    intro x; simp only [G, gev, mem_sAdd, h.want x]
+  unfold Inb.appPause
   split
   · rename_i g hg
     split
     · rename_i hc
-      simp only [Bool.and_eq_true, Bool.not_eq_true', List.isEmpty_iff] at hc
-      have hne : s.pausedSc ≠ [] := by intro h0; simp [h0] at hc
-      have hlp := (h.exact g hg).2 hne
-      unfold Inb.connResume; simp only [hp, if_true]
-      refine ⟨?_, ?_, ?_, ?_⟩
+      have he : s.pausedSc = [] := by simpa using hc
+      have hlp : lastPaused g s.log = false := by
+        have := h.exact g hg; simp [he] at this; simpa using this
+      unfold Inb.connPause; simp only [hp, if_true]
+      refine ⟨?_, ?_, ?_, h.connLe, ?_⟩
       · intro g' hg'; simp only at hg'; rw [hg] at hg'; cases hg'
-        simp [lastPaused, hc.2]
-      · simp [altOK, hlp, h.alt]
+        simp [lastPaused, sAdd_ne_nil]
+      · simp [altOK, lastPaused, hlp, h.alt]
       · intro g' hg'; simp only at hg'
         have := h.connLe g hg
         simp only [lastPaused]; split
         · omega
         · exact h.fresh g' hg'
-      · exact h.connLe
+      · intro x; simp only [G, gev]; exact hw x
     · rename_i hc
-      refine ⟨?_, h.alt, h.fresh, h.connLe⟩
+      refine ⟨?_, by simpa [altOK] using h.alt, fun g' hg' => by simpa [lastPaused] using h.fresh g' hg', h.connLe, hw⟩
       intro g' hg'; simp only at hg' ⊢
+      simp only [lastPaused]
       rw [h.exact g' hg']
-      simp only [Bool.and_eq_true, Bool.not_eq_true', List.isEmpty_iff, not_and] at hc
-      constructor
-      · intro hne h0; exact hc (by simpa using hne) h0
-      · intro hne h0; exact hne (sDel_nil_of_nil h0)
+      have : s.pausedSc ≠ [] := by simpa using hc
+      simp [this, sAdd_ne_nil]
   · rename_i hg
-    refine ⟨?_, h.alt, h.fresh, ?_⟩
+    refine ⟨?_, by simpa [altOK] using h.alt, fun g' hg' => by simpa [lastPaused] using h.fresh g' hg', ?_, hw⟩
     · intro g hg'; simp only at hg'; rw [hg] at hg'; cases hg'
     · intro g hg'; simp only at hg'; rw [hg] at hg'; cases hg'
 
-theorem IInv.congr {s s' : Inb} (h : IInv s) (h1 : s'.pausedSc = s.pausedSc) (h2 : s'.conn = s.conn)
-    (h3 : s'.gen = s.gen) (h4 : s'.log = s.log) : IInv s' := by
-  refine ⟨?_, ?_, ?_, ?_⟩
-  · intro g hg; rw [h4, h1]; exact h.exact g (by rw [← h2]; exact hg)
-  · rw [h4]; exact h.alt
-  · intro g hg; rw [h4]; exact h.fresh g (by rw [← h3]; exact hg)
-  · intro g hg; rw [h3]; exact h.connLe g (by rw [← h2]; exact hg)
-
-theorem IInv.raise {s : Inb} (h : IInv s) (e : IExn) : IInv (s.raise e) :=
-  ⟨fun g hg => by simpa [Inb.raise, lastPaused] using h.exact g hg, by simpa [Inb.raise, altOK] using h.alt,
-    fun g hg => by simpa [Inb.raise, lastPaused] using h.fresh g hg, h.connLe⟩
-
-theorem iinv_closeSub (hr : dcpForwardsResume = true) {s : Inb} (h : IInv s) (sc : Nat) : IInv (s.closeSub sc) := by
-  unfold Inb.closeSub
+theorem iinv_appData (hp : dcpForwardsPause = true) {s : Inb} (h : IInv s) (sc : Nat) : IInv (s.appData sc) := by
+  unfold Inb.appData
   split
-  · exact iinv_discard _ sc hr (h.congr rfl rfl rfl rfl)
-  · exact h.raise _
+  · exact iinv_appPause hp (s := s.setBeh sc 0) (h.congr rfl rfl rfl rfl) sc
+  · exact h
 
-theorem iinv_runOuts (hr : dcpForwardsResume = true) (sc : Nat) (outs : List Gen.SubChannel.Output) :
-    ∀ {s : Inb}, IInv s → IInv (runOuts s sc outs) := by
+theorem iinv_runOuts (hp : dcpForwardsPause = true) (hr : dcpForwardsResume = true) (sc : Nat)
+    (outs : List Gen.SubChannel.Output) : ∀ {s : Inb}, IInv s → IInv (runOuts s sc outs) := by
   induction outs with
   | nil => intro s h; exact h
   | cons o r ih =>
@@ -819,24 +973,55 @@ theorem iinv_runOuts (hr : dcpForwardsResume = true) (sc : Nat) (outs : List Gen
       · exact h.raise _
     case error_closed_close => exact h.raise _
     case error_closed_write => exact h.raise _
+    case signal_dataReceived => exact ih (iinv_appData hp h sc)
+    case queue_remote_data => exact ih (s := s.setPend sc _) (h.congr rfl rfl rfl rfl)
+    case queue_remote_close => exact ih (s := s.setPend sc _) (h.congr rfl rfl rfl rfl)
     all_goals exact ih h
 
-theorem iinv_scInput (hr : dcpForwardsResume = true) {s : Inb} (h : IInv s) (sc : Nat) (inp : Gen.SubChannel.Input) :
-    IInv (scInput s sc inp) := by
+theorem iinv_scInput (hp : dcpForwardsPause = true) (hr : dcpForwardsResume = true) {s : Inb} (h : IInv s) (sc : Nat)
+    (inp : Gen.SubChannel.Input) : IInv (scInput s sc inp) := by
   unfold scInput
   split
   · exact h.raise _
-  · exact iinv_runOuts hr sc _ (h.congr rfl rfl rfl rfl)
+  · exact iinv_runOuts hp hr sc _ (s := s.setSc sc _) (h.congr rfl rfl rfl rfl)
 
-theorem iinv_openSub (hr : dcpForwardsResume = true) {s : Inb} (h : IInv s) (sc : Nat) (half : Bool) :
-    IInv (openSub s sc half) := by
+theorem iinv_openSub (hp : dcpForwardsPause = true) (hr : dcpForwardsResume = true) {s : Inb} (h : IInv s) (sc : Nat)
+    (half : Bool) : IInv (openSub s sc half) := by
+  have ho : IInv { s with openSc := sAdd sc s.openSc, log := .opened sc :: s.log } :=
+    h.push (.opened sc) (Or.inr ⟨sc, rfl⟩) rfl rfl rfl rfl
   unfold openSub
   split
   · exact h.raise _
   · split
-    · exact IInv.raise (s := { s with openSc := sAdd sc s.openSc }) (h.congr rfl rfl rfl rfl) _
-    · exact iinv_scInput hr (s := Inb.setSc { s with openSc := sAdd sc s.openSc } sc (Gen.SubChannel.init, half))
-        (h.congr rfl rfl rfl rfl) sc _
+    · exact ho.raise _
+    · exact iinv_scInput hp hr (s := Inb.setSc { s with openSc := sAdd sc s.openSc, log := .opened sc :: s.log } sc (Gen.SubChannel.init, half)) (ho.congr rfl rfl rfl rfl) sc _
+
+theorem iinv_deliverData (hp : dcpForwardsPause = true) (hr : dcpForwardsResume = true) (sc : Nat) (n : Nat) :
+    ∀ {s : Inb}, IInv s → IInv (deliverData s sc n) := by
+  induction n with
+  | zero => intro s h; exact h
+  | succ n ih => intro s h; simp only [deliverData]; exact ih (iinv_scInput hp hr h sc _)
+
+theorem iinv_connectApp (hp : dcpForwardsPause = true) (hr : dcpForwardsResume = true) {s : Inb} (h : IInv s)
+    (sc mode : Nat) : IInv (connectApp s sc mode) := by
+  have h1 : IInv (scInput (s.setBeh sc mode) sc .connect_protocol_full) :=
+    iinv_scInput hp hr (s := s.setBeh sc mode) (h.congr rfl rfl rfl rfl) sc _
+  have h2 : IInv (connectMade (scInput (s.setBeh sc mode) sc .connect_protocol_full) sc mode) := by
+    unfold connectMade; split
+    · exact iinv_appPause hp h1 sc
+    · exact h1
+  have h3 := iinv_deliverData hp hr sc
+    ((connectMade (scInput (s.setBeh sc mode) sc .connect_protocol_full) sc mode).pendOf sc).1 h2
+  unfold connectApp connectDeliver connectFinish
+  split
+  · exact iinv_scInput hp hr (s := Inb.setPend (deliverData _ sc _) sc (0, false)) (h3.congr rfl rfl rfl rfl) sc _
+  · exact h3.congr (s' := Inb.setPend (deliverData _ sc _) sc (0, false)) rfl rfl rfl rfl
+
+theorem iinv_connectAll (hp : dcpForwardsPause = true) (hr : dcpForwardsResume = true) (mode : Nat) (l : List Nat) :
+    ∀ {s : Inb}, IInv s → IInv (connectAll s mode l) := by
+  induction l with
+  | nil => intro s h; exact h
+  | cons sc r ih => intro s h; simp only [connectAll]; exact ih (iinv_connectApp hp hr h sc mode)
 
 theorem iinv_step (s : Inb) (op : IOp) (hp : dcpForwardsPause = true) (hr : dcpForwardsResume = true)
     (h : IInv s) : IInv (istep s op) := by
@@ -848,7 +1033,7 @@ theorem iinv_step (s : Inb) (op : IOp) (hp : dcpForwardsPause = true) (hr : dcpF
     · rename_i hc
       have hne : s.pausedSc ≠ [] := by intro h0; simp [h0] at hc
       unfold Inb.connPause; simp only [hp, if_true]
-      refine ⟨?_, ?_, ?_, ?_⟩
+      refine ⟨?_, ?_, ?_, ?_, h.want⟩
       · intro g hg; simp only at hg; cases hg; simp [lastPaused, hne]
       · simp [altOK, hfresh, h.alt]
       · intro g hg; simp only at hg
@@ -858,66 +1043,57 @@ theorem iinv_step (s : Inb) (op : IOp) (hp : dcpForwardsPause = true) (hr : dcpF
       · intro g hg; simp only at hg; cases hg; simp
     · rename_i hc
       have he : s.pausedSc = [] := by simpa using hc
-      refine ⟨?_, h.alt, ?_, ?_⟩
+      refine ⟨?_, h.alt, ?_, ?_, h.want⟩
       · intro g hg; simp only at hg; cases hg; simp [hfresh, he]
       · intro g hg; simp only at hg; exact h.fresh g (by omega)
       · intro g hg; simp only at hg; cases hg; simp
   | stop =>
     simp only [istep]
-    exact ⟨(by intro g hg; cases hg), h.alt, h.fresh, (by intro g hg; cases hg)⟩
-  | pause sc =>
-    simp only [istep]
-    split
-    · rename_i g hg
-      split
-      · rename_i hc
-        have he : s.pausedSc = [] := by simpa using hc
-        have hlp : lastPaused g s.log = false := by
-          have := h.exact g hg; simp [he] at this; simpa using this
-        unfold Inb.connPause; simp only [hp, if_true]
-        refine ⟨?_, ?_, ?_, h.connLe⟩
-        · intro g' hg'; simp only at hg'; rw [hg] at hg'; cases hg'
-          simp [lastPaused, sAdd_ne_nil]
-        · simp [altOK, hlp, h.alt]
-        · intro g' hg'; simp only at hg'
-          have := h.connLe g hg
-          simp only [lastPaused]; split
-          · omega
-          · exact h.fresh g' hg'
-      · rename_i hc
-        refine ⟨?_, h.alt, h.fresh, h.connLe⟩
-        intro g' hg'; simp only at hg' ⊢
-        rw [h.exact g' hg']
-        have : s.pausedSc ≠ [] := by simpa using hc
-        simp [this, sAdd_ne_nil]
-    · rename_i hg
-      refine ⟨?_, h.alt, h.fresh, ?_⟩
-      · intro g hg'; simp only at hg'; rw [hg] at hg'; cases hg'
-      · intro g hg'; simp only at hg'; rw [hg] at hg'; cases hg'
-  | resume sc => exact iinv_discard s sc hr h
-  | stopProducing sc => exact iinv_discard s sc hr h
-  | opn sc => exact iinv_openSub hr h sc false
-  | opnHalf sc => exact iinv_openSub hr h sc true
+    exact ⟨(by intro g hg; cases hg), h.alt, h.fresh, (by intro g hg; cases hg), h.want⟩
+  | pause sc => exact iinv_appPause hp h sc
+  | resume sc => exact iinv_appResume hr h sc
+  | stopProducing sc => exact iinv_appResume hr h sc
+  | opn sc => exact iinv_openSub hp hr h sc false
+  | opnHalf sc => exact iinv_openSub hp hr h sc true
   | close sc => exact iinv_closeSub hr h sc
   | rclose sc => simp only [istep]; split
-                 · exact iinv_scInput hr h sc _
+                 · exact iinv_scInput hp hr h sc _
                  · exact h
   | lose sc => simp only [istep]; split
                · exact h.raise _
-               · exact iinv_scInput hr h sc _
+               · exact iinv_scInput hp hr h sc _
   | loseW sc => simp only [istep]; split
-                · exact iinv_scInput hr h sc _
+                · exact iinv_scInput hp hr h sc _
                 · exact h.raise _
+  | ropen sc =>
+    simp only [istep]
+    split
+    · exact h
+    · have ho : IInv { s with openSc := sAdd sc s.openSc, log := .opened sc :: s.log } :=
+        h.push (.opened sc) (Or.inr ⟨sc, rfl⟩) rfl rfl rfl rfl
+      have h1 : IInv (Inb.setBeh (Inb.setPend (Inb.setSc { s with openSc := sAdd sc s.openSc, log := .opened sc :: s.log }
+                  sc (Gen.SubChannel.init, false)) sc (0, false)) sc 0) := ho.congr rfl rfl rfl rfl
+      split
+      · exact iinv_connectApp hp hr h1 sc _
+      · exact h1.congr rfl rfl rfl rfl
+  | rdata sc => simp only [istep]; split
+                · exact iinv_scInput hp hr h sc _
+                · exact h
+  | listen mode =>
+    simp only [istep]
+    split
+    · exact h.raise _
+    · exact iinv_connectAll hp hr mode _ (s := { s with listen := some mode, parked := [] }) (h.congr rfl rfl rfl rfl)
 
 theorem iinit_inv : IInv {} :=
-  ⟨(by intro g hg; cases hg), rfl, (by intro g _; rfl), (by intro g hg; cases hg)⟩
+  ⟨(by intro g hg; cases hg), rfl, (by intro g _; rfl), (by intro g hg; cases hg), (by intro x; simp [G])⟩
 
 theorem ireach_inv (hp : dcpForwardsPause = true) (hr : dcpForwardsResume = true) {s : Inb} (h : IReach s) : IInv s := by
   induction h with
   | init => exact iinit_inv
   | step op _ ih => exact iinv_step _ op hp hr ih
 
-/-! ## Inbound: the pause requests of subchannels that are not closed -/
+/-! ## Inbound: local closes, and the pre-listen backlog -/
 
 theorem discard_pausedSc (s : Inb) (sc : Nat) : (s.discard sc).pausedSc = sDel sc s.pausedSc := by
   unfold Inb.discard
@@ -935,215 +1111,13 @@ theorem discard_openSc (s : Inb) (sc : Nat) : (s.discard sc).openSc = s.openSc :
     · rfl
   · rfl
 
-/-- what an operation on subchannel `sc` can do to `_paused_subchannels` and `_open_subchannels` -/
-def EffSame (s s' : Inb) : Prop := s'.pausedSc = s.pausedSc ∧ s'.openSc = s.openSc
-def EffClosed (s s' : Inb) (sc : Nat) : Prop :=
-  sc ∈ s.openSc ∧ s'.pausedSc = sDel sc s.pausedSc ∧ s'.openSc = sDel sc s.openSc
-def EffOpened (s s' : Inb) (sc : Nat) : Prop :=
-  sc ∉ s.openSc ∧ s'.pausedSc = s.pausedSc ∧ s'.openSc = sAdd sc s.openSc
-
-theorem closeSub_effect (s : Inb) (sc : Nat) : EffSame s (s.closeSub sc) ∨ EffClosed s (s.closeSub sc) sc := by
-  unfold Inb.closeSub
-  split
-  · rename_i h; right; exact ⟨h, by rw [discard_pausedSc], by rw [discard_openSc]⟩
-  · left; exact ⟨rfl, rfl⟩
-
-theorem runOuts_effect (sc : Nat) (outs : List Gen.SubChannel.Output) :
-    ∀ s : Inb, EffSame s (runOuts s sc outs) ∨ EffClosed s (runOuts s sc outs) sc := by
-  induction outs with
-  | nil => intro s; left; exact ⟨rfl, rfl⟩
-  | cons o r ih =>
-    intro s
-    cases o <;> simp only [runOuts]
-    case close_subchannel =>
-      split
-      · rename_i hopen
-        have h1 : (s.closeSub sc).pausedSc = sDel sc s.pausedSc ∧ (s.closeSub sc).openSc = sDel sc s.openSc := by
-          rcases closeSub_effect s sc with h | h
-          · unfold Inb.closeSub at h ⊢; simp only [hopen, if_true] at h ⊢
-            exact ⟨by rw [discard_pausedSc], by rw [discard_openSc]⟩
-          · exact h.2
-        rcases ih (s.closeSub sc) with h | h
-        · right; exact ⟨hopen, by rw [h.1, h1.1], by rw [h.2, h1.2]⟩
-        · exfalso; have := h.1; rw [h1.2] at this; exact (mem_sDel.1 this).2 rfl
-      · left; exact ⟨rfl, rfl⟩
-    case error_closed_close => left; exact ⟨rfl, rfl⟩
-    case error_closed_write => left; exact ⟨rfl, rfl⟩
-    all_goals exact ih s
-
-theorem scInput_effect (s : Inb) (sc : Nat) (inp : Gen.SubChannel.Input) :
-    EffSame s (scInput s sc inp) ∨ EffClosed s (scInput s sc inp) sc := by
-  unfold scInput
-  split
-  · left; exact ⟨rfl, rfl⟩
-  · exact runOuts_effect sc _ (s.setSc sc _)
-
 theorem scState_setSc (s : Inb) (sc : Nat) (x : Gen.SubChannel.State × Bool) : (s.setSc sc x).scState sc = x := by
   simp [Inb.scState, Inb.setSc]
 
-/-- uses the generated table: connecting a protocol to a fresh SubChannel has no outputs -/
-theorem scInput_connect (s : Inb) (sc : Nat) (half : Bool) (hst : s.scState sc = (Gen.SubChannel.init, half)) :
-    EffSame s (scInput s sc (if half then .connect_protocol_half else .connect_protocol_full)) := by
-  have t1 : Gen.SubChannel.table Gen.SubChannel.init .connect_protocol_full = some (.open_full, []) := rfl
-  have t2 : Gen.SubChannel.table Gen.SubChannel.init .connect_protocol_half = some (.open_half, []) := rfl
-  unfold scInput
-  rw [hst]
-  cases half
-  · simp only [Bool.false_eq_true, if_false, t1]; exact ⟨rfl, rfl⟩
-  · simp only [if_true, t2]; exact ⟨rfl, rfl⟩
-
-theorem openSub_effect (s : Inb) (sc : Nat) (half : Bool) :
-    EffSame s (openSub s sc half) ∨ EffOpened s (openSub s sc half) sc := by
-  unfold openSub
-  split
-  · left; exact ⟨rfl, rfl⟩
-  · rename_i hno
-    split
-    · right; exact ⟨hno, rfl, rfl⟩
-    · right
-      have := scInput_connect (Inb.setSc { s with openSc := sAdd sc s.openSc } sc (Gen.SubChannel.init, half)) sc half
-        (scState_setSc _ sc _)
-      exact ⟨hno, this.1, this.2⟩
-
-/-- ghost bookkeeping, independent of `Inbound`'s own set -/
-structure Ghost where
-  w : List Nat := []     -- subchannels whose application has an outstanding pause request
-  cl : List Nat := []    -- subchannels that were closed (and not opened again)
-
-/-- a lifecycle operation on `sc`: if it closed `sc` its request dies with it; if it opened `sc`, `sc` is not closed any more -/
-def lifeG (s s' : Inb) (g : Ghost) (sc : Nat) : Ghost :=
-  if sc ∈ s.openSc ∧ sc ∉ s'.openSc then { w := sDel sc g.w, cl := sAdd sc g.cl }
-  else if sc ∉ s.openSc ∧ sc ∈ s'.openSc then { g with cl := sDel sc g.cl }
-  else g
-
-def gstep (s : Inb) (g : Ghost) (op : IOp) : Ghost :=
-  match op with
-  | .pause sc => { g with w := sAdd sc g.w }
-  | .resume sc => { g with w := sDel sc g.w }
-  | .stopProducing sc => { g with w := sDel sc g.w }
-  | .use => g
-  | .stop => g
-  | .opn sc => lifeG s (istep s op) g sc
-  | .opnHalf sc => lifeG s (istep s op) g sc
-  | .close sc => lifeG s (istep s op) g sc
-  | .rclose sc => lifeG s (istep s op) g sc
-  | .lose sc => lifeG s (istep s op) g sc          -- a locally closing subchannel is still open until the peer's CLOSE
-  | .loseW sc => lifeG s (istep s op) g sc
-
-/-- environment: the application of a closed subchannel does not ask for a pause any more -/
-def iopOK (g : Ghost) : IOp → Prop
-  | .pause sc => sc ∉ g.cl
-  | _ => True
-
-instance (g : Ghost) (op : IOp) : Decidable (iopOK g op) := by
-  cases op <;> simp only [iopOK] <;> infer_instance
-
-inductive IReachW : Inb → Ghost → Prop
-  | init : IReachW {} {}
-  | step {s : Inb} {g : Ghost} (op : IOp) : IReachW s g → iopOK g op → IReachW (istep s op) (gstep s g op)
-
-theorem IReachW.reach {s : Inb} {g : Ghost} (h : IReachW s g) : IReach s := by
-  induction h with
-  | init => exact IReach.init
-  | step op _ _ ih => exact IReach.step op ih
-
-/-- the effect of every lifecycle operation of the model -/
-theorem life_effect (s : Inb) (op : IOp) (sc : Nat)
-    (hop : op = .opn sc ∨ op = .opnHalf sc ∨ op = .close sc ∨ op = .rclose sc ∨ op = .lose sc ∨ op = .loseW sc) :
-    EffSame s (istep s op) ∨ EffOpened s (istep s op) sc ∨ EffClosed s (istep s op) sc := by
-  have lift : ∀ s' : Inb, (EffSame s s' ∨ EffClosed s s' sc) → EffSame s s' ∨ EffOpened s s' sc ∨ EffClosed s s' sc :=
-    fun s' h => h.elim Or.inl (fun h => Or.inr (Or.inr h))
-  rcases hop with rfl | rfl | rfl | rfl | rfl | rfl
-  · exact (openSub_effect s sc false).elim Or.inl (fun h => Or.inr (Or.inl h))
-  · exact (openSub_effect s sc true).elim Or.inl (fun h => Or.inr (Or.inl h))
-  · exact lift _ (closeSub_effect s sc)
-  · simp only [istep]; split
-    · exact lift _ (scInput_effect s sc _)
-    · exact Or.inl ⟨rfl, rfl⟩
-  · simp only [istep]; split
-    · exact Or.inl ⟨rfl, rfl⟩
-    · exact lift _ (scInput_effect s sc _)
-  · simp only [istep]; split
-    · exact lift _ (scInput_effect s sc _)
-    · exact Or.inl ⟨rfl, rfl⟩
-
-structure WantInv (s : Inb) (g : Ghost) : Prop where
-  eq : ∀ x, x ∈ g.w ↔ x ∈ s.pausedSc
-  ncl : ∀ x, x ∈ g.w → x ∉ g.cl
-
-theorem life_want {s s' : Inb} {g : Ghost} (sc : Nat) (ih : WantInv s g)
-    (heff : EffSame s s' ∨ EffOpened s s' sc ∨ EffClosed s s' sc) : WantInv s' (lifeG s s' g sc) := by
-  unfold lifeG
-  rcases heff with ⟨hp, ho⟩ | ⟨hno, hp, ho⟩ | ⟨hin, hp, ho⟩
-  · have h1 : ¬ (sc ∈ s.openSc ∧ sc ∉ s'.openSc) := by rw [ho]; tauto
-    have h2 : ¬ (sc ∉ s.openSc ∧ sc ∈ s'.openSc) := by rw [ho]; tauto
-    rw [if_neg h1, if_neg h2]
-    exact ⟨fun x => by rw [hp]; exact ih.eq x, ih.ncl⟩
-  · have h1 : ¬ (sc ∈ s.openSc ∧ sc ∉ s'.openSc) := fun h => hno h.1
-    have h2 : sc ∉ s.openSc ∧ sc ∈ s'.openSc := ⟨hno, by rw [ho]; simp⟩
-    rw [if_neg h1, if_pos h2]
-    exact ⟨fun x => by rw [hp]; exact ih.eq x, fun x hx hc => ih.ncl x hx (mem_sDel.1 hc).1⟩
-  · have h1 : sc ∈ s.openSc ∧ sc ∉ s'.openSc := ⟨hin, by rw [ho]; simp⟩
-    rw [if_pos h1]
-    refine ⟨fun x => by rw [hp]; simp only [mem_sDel, ih.eq x], ?_⟩
-    intro x hx hc
-    simp only [mem_sDel] at hx
-    rcases mem_sAdd.1 hc with h | h
-    · exact hx.2 h
-    · exact ih.ncl x hx.1 h
-
-theorem istep_pause_pausedSc (s : Inb) (sc : Nat) : (istep s (.pause sc)).pausedSc = sAdd sc s.pausedSc := by
-  simp only [istep]; split
-  · split
-    · unfold Inb.connPause; split <;> rfl
-    · rfl
-  · rfl
-
-theorem istep_use_pausedSc (s : Inb) : (istep s .use).pausedSc = s.pausedSc := by
-  simp only [istep]; split
-  · unfold Inb.connPause; split <;> rfl
-  · rfl
-
-/-- the ghost request set and `_paused_subchannels` have the same members, and nobody in it is closed -/
-theorem want_eq {s : Inb} {g : Ghost} (h : IReachW s g) : WantInv s g := by
-  induction h with
-  | init => exact ⟨fun x => by simp, fun x hx => by cases hx⟩
-  | @step s g op _ hok ih =>
-    cases op with
-    | use => exact ⟨fun x => by rw [istep_use_pausedSc]; exact ih.eq x, ih.ncl⟩
-    | stop => exact ⟨ih.eq, ih.ncl⟩
-    | pause sc =>
-      refine ⟨fun x => by rw [istep_pause_pausedSc]; simp only [gstep, mem_sAdd, ih.eq x], ?_⟩
-      intro x hx
-      simp only [gstep, mem_sAdd] at hx ⊢
-      rcases hx with rfl | hx
-      · exact hok
-      · exact ih.ncl x hx
-    | resume sc =>
-      exact ⟨fun x => by simp only [istep, discard_pausedSc, gstep, mem_sDel, ih.eq x],
-        fun x hx => ih.ncl x (by simp only [gstep, mem_sDel] at hx; exact hx.1)⟩
-    | stopProducing sc =>
-      exact ⟨fun x => by simp only [istep, discard_pausedSc, gstep, mem_sDel, ih.eq x],
-        fun x hx => ih.ncl x (by simp only [gstep, mem_sDel] at hx; exact hx.1)⟩
-    | opn sc => exact life_want sc ih (life_effect s _ sc (by simp))
-    | opnHalf sc => exact life_want sc ih (life_effect s _ sc (by simp))
-    | close sc => exact life_want sc ih (life_effect s _ sc (by simp))
-    | rclose sc => exact life_want sc ih (life_effect s _ sc (by simp))
-    | lose sc => exact life_want sc ih (life_effect s _ sc (by simp))
-    | loseW sc => exact life_want sc ih (life_effect s _ sc (by simp))
-
-/-- a local `loseConnection()` / `loseWriteConnection()` never touches `_paused_subchannels` unless it
-    completes the close (then the subchannel leaves `_open_subchannels` in the same step) -/
-theorem local_close_effect (s : Inb) (sc : Nat) :
-    (EffSame s (istep s (.lose sc)) ∨ EffClosed s (istep s (.lose sc)) sc) ∧
-    (EffSame s (istep s (.loseW sc)) ∨ EffClosed s (istep s (.loseW sc)) sc) := by
-  constructor
-  · simp only [istep]; split
-    · exact Or.inl ⟨rfl, rfl⟩
-    · exact scInput_effect s sc _
-  · simp only [istep]; split
-    · exact scInput_effect s sc _
-    · exact Or.inl ⟨rfl, rfl⟩
+/-- who holds a pause, and which subchannels are open, changes in one of two ways only -/
+def EffSame (s s' : Inb) : Prop := s'.pausedSc = s.pausedSc ∧ s'.openSc = s.openSc
+def EffClosed (s s' : Inb) (sc : Nat) : Prop :=
+  sc ∈ s.openSc ∧ s'.pausedSc = sDel sc s.pausedSc ∧ s'.openSc = sDel sc s.openSc
 
 /-! ## building concrete reachable configurations (for the non-vacuity examples) -/
 
